@@ -140,8 +140,7 @@ class ArffDataReader(Filter[Iterable[str], Iterable[Union[Dense,Sparse]]]):
             elif line[-2:] == ",?":
                 missing = True
             else:
-                compact = line.translate(self._trans)
-                missing = compact[:2] == '?,' or ',?,' in compact or compact[-2:] == ',?'
+                missing = any(item.strip() == '?' for item in re.split('[,\t]',line))
 
             yield line,missing
 
